@@ -1,14 +1,19 @@
 /-
-C30 — concurrent notifications.  Several connections (primary, sub-DC, CDN) may call the client
-handler at the same time.  `onSession` is not one critical section: it runs
+C30 — concurrent notifications and migrations.  Several connections (primary, sub-DC, CDN) may
+call the client handler at the same time, and `migrateToDc` (`USER_MIGRATE`/`PHONE_MIGRATE`
+handling in `invokeMigrate`, or `Client.MigrateTo`) may call `c.session.Migrate` in between.
+`onSession` is not one critical section: it runs
   0. `storeDCSess`                      (under `sessionsMux`)
   1. `primaryDC := c.session.Load().DC` and the skip test
   2. `c.session.Store(sessionData)`     (under `connMux`)
-  3. `c.storage.Load`                   (storage's own lock)   — start of `saveSession`
-  4. `c.storage.Save(data)`             (storage's own lock)
-each atomic by the lock named.  This file is the labelled transition system whose actions are
-"a new notification arrives" and "notification `i` performs its next atomic step"; any action
-list is any interleaving of any number of notifications.  Core Lean only.
+  3. `c.storage.Load` and the computation of the new `session.Data`   — start of `saveSession`
+  4. `c.storage.Save(data)`
+each atomic by the lock named (3: the data is computed from the notification right after the
+load; nothing shared is read there).  `onCDNSession` and `Migrate` are one step each.  This file
+is the labelled transition system whose actions are "a notification / migration arrives" and
+"agent `i` performs its next atomic step"; any action list is any interleaving of any number
+of them.  This is the hand-written ("clean") LTS; `TdModel/Model/C30Interp.lean` is the one
+interpreted from the regenerated facts, `Lemmas/C30Interp.lean` proves them equal.  Core Lean only.
 -/
 import TdModel.Model.C30
 
@@ -17,18 +22,24 @@ open TdModel
 
 structure Thread where
   n : Notif
-  /-- next atomic step (0..4); 5 = returned -/
+  /-- next atomic step -/
   pc : Nat
+  /-- returned early (skipped, no storage, storage error) -/
+  done : Bool
   /-- `primaryDC` as read at step 1 -/
   saw : Int
-  /-- `data.Addr` as loaded at step 3 -/
-  addr : String
+  /-- the `session.Data` computed at step 3, written at step 4 -/
+  pending : Stored
   res : Res
   deriving DecidableEq, Repr
 
+def emptyStored : Stored := ⟨0, [], [], 0, ""⟩
+
+def Thread.new (n : Notif) : Thread := ⟨n, 0, false, 0, emptyStored, .ok⟩
+
 structure CSt where
   st : St
-  /-- notifications in flight or finished, by arrival number -/
+  /-- notifications / migrations in flight or finished, by arrival number -/
   threads : Nat → Option Thread
   count : Nat
 
@@ -37,39 +48,46 @@ inductive Act where
   | adv (i : Nat)
   deriving DecidableEq, Repr
 
-/-- One atomic step of one notification. -/
+/-- One atomic step of one agent. -/
 def advThread (s : St) (t : Thread) : St × Thread :=
-  match t.n.kind with
-  | .cdn =>
-    if t.pc = 0 then ({ s with cdnSessions := insertDC s.cdnSessions (sessOf t.n) }, { t with pc := 5 })
-    else (s, t)
-  | .regular =>
-    if t.pc = 0 then ({ s with dcSessions := insertDC s.dcSessions (sessOf t.n) }, { t with pc := 1 })
-    else if t.pc = 1 then
-      if skips s.session.dc t.n.cfgDC then (s, { t with pc := 5, saw := s.session.dc })
-      else (s, { t with pc := 2, saw := s.session.dc })
-    else if t.pc = 2 then ({ s with session := sessOf t.n }, { t with pc := 3 })
-    else if t.pc = 3 then
-      if !s.hasStorage then (s, { t with pc := 5 })
-      else if t.n.fault = .loadErr then (s, { t with pc := 5, res := .errLoad })
-      else
-        (s, { t with pc := 4, addr := match s.stored with
-                                      | some d => d.addr
-                                      | none => "" })
-    else if t.pc = 4 then
-      if t.n.fault = .saveErr then (s, { t with pc := 5, res := .errSave })
-      else ({ s with stored := some (storedOf t.n t.addr) }, { t with pc := 5 })
-    else (s, t)
+  if t.done then (s, t)
+  else
+    match t.n.kind with
+    | .cdn =>
+      if t.pc = 0 then ({ s with cdnSessions := insertDC s.cdnSessions (sessOf t.n) }, { t with pc := 1 })
+      else (s, { t with done := true })
+    | .migrate =>
+      if t.pc = 0 then ({ s with session := ⟨t.n.cfgDC, zeroAuthKey, 0⟩ }, { t with pc := 1 })
+      else (s, { t with done := true })
+    | .regular =>
+      if t.pc = 0 then ({ s with dcSessions := insertDC s.dcSessions (sessOf t.n) }, { t with pc := 1 })
+      else if t.pc = 1 then
+        if skips s.session.dc t.n.cfgDC then (s, { t with saw := s.session.dc, done := true })
+        else (s, { t with saw := s.session.dc, pc := 2 })
+      else if t.pc = 2 then ({ s with session := sessOf t.n }, { t with pc := 3 })
+      else if t.pc = 3 then
+        if !s.hasStorage then (s, { t with done := true })
+        else if t.n.fault = .loadErr then (s, { t with done := true, res := .errLoad })
+        else
+          (s, { t with pc := 4, pending := storedOf t.n (match s.stored with
+                                                          | some d => d.addr
+                                                          | none => "") })
+      else if t.pc = 4 then
+        if t.n.fault = .saveErr then (s, { t with done := true, res := .errSave })
+        else ({ s with stored := some t.pending }, { t with pc := 5 })
+      else (s, { t with done := true })
 
 def updT (f : Nat → Option Thread) (i : Nat) (x : Option Thread) : Nat → Option Thread :=
   fun j => if j = i then x else f j
 
-def cstep (c : CSt) : Act → CSt
-  | .spawn n => { c with threads := updT c.threads c.count (some ⟨n, 0, 0, "", .ok⟩), count := c.count + 1 }
+def cstepWith (adv : St → Thread → St × Thread) (c : CSt) : Act → CSt
+  | .spawn n => { c with threads := updT c.threads c.count (some (Thread.new n)), count := c.count + 1 }
   | .adv i =>
     match c.threads i with
-    | some t => { c with st := (advThread c.st t).1, threads := updT c.threads i (some (advThread c.st t).2) }
+    | some t => { c with st := (adv c.st t).1, threads := updT c.threads i (some (adv c.st t).2) }
     | none => c
+
+def cstep : CSt → Act → CSt := cstepWith advThread
 
 def crun (c : CSt) (as : List Act) : CSt := as.foldl cstep c
 
@@ -78,29 +96,15 @@ def cinit (s : St) : CSt := ⟨s, fun _ => none, 0⟩
 /-- The test `onSession` applied to the primary DC it read. -/
 def eligible (t : Thread) : Prop := t.n.cfgDC = t.saw ∨ t.saw = 0 ∨ t.n.cfgDC = 0
 
-/-- A notification run alone, start to end (5 steps suffice). -/
-def alone (s : St) (n : Notif) : St × Thread :=
-  let t0 : Thread := ⟨n, 0, 0, "", .ok⟩
-  let r1 := advThread s t0
-  let r2 := advThread r1.1 r1.2
-  let r3 := advThread r2.1 r2.2
-  let r4 := advThread r3.1 r3.2
-  advThread r4.1 r4.2
+/-- An agent run alone, start to end (6 steps suffice). -/
+def aloneWith (adv : St → Thread → St × Thread) (s : St) (n : Notif) : St × Thread :=
+  let r1 := adv s (Thread.new n)
+  let r2 := adv r1.1 r1.2
+  let r3 := adv r2.1 r2.2
+  let r4 := adv r3.1 r3.2
+  let r5 := adv r4.1 r4.2
+  adv r5.1 r5.2
 
-/-! ### executable exploration for the driver -/
-
-/-- Is a final state satisfying `goal` reachable by running every notification of `ts` to completion
-in some interleaving?  (fuel = total number of remaining steps) -/
-def reach (goal : St → List Thread → Bool) : Nat → St → List Thread → Bool
-  | 0, s, ts => goal s ts
-  | fuel + 1, s, ts =>
-    let live := (List.range ts.length).filter fun i => match ts[i]? with
-      | some t => t.pc < 5
-      | none => false
-    if live.isEmpty then goal s ts
-    else live.any fun i =>
-      match ts[i]? with
-      | some t => reach goal fuel (advThread s t).1 (ts.set i (advThread s t).2)
-      | none => false
+def alone : St → Notif → St × Thread := aloneWith advThread
 
 end TdModel.C30
